@@ -188,13 +188,30 @@ package tso
 //@ pure memGE(t *timestampOracle, ts *pdpb.Timestamp) = ms(physNano(t)) > tsP(ts) || (ms(physNano(t)) == tsP(ts) && t.tsoMux.logical >= tsL(ts))
 //@ func (*LocalTSOAllocator).GetCurrentTSO
 //@   props C05
-//@   requires lta != nil && lta.timestampOracle != nil && lta.timestampOracle.tsoMux != nil
-//@   ensures [reads-memory] r1 == nil ==> r0 != nil && allocated(r0) && initialized(lta.timestampOracle) && r0.Physical == ms(physNano(lta.timestampOracle)) && r0.Logical == lta.timestampOracle.tsoMux.logical
+//@   option modesonly
+//@   requires @strict lta != nil && lta.timestampOracle != nil && lta.timestampOracle.tsoMux != nil
+//@   ensures [reads-memory] @strict r1 == nil ==> r0 != nil && allocated(r0) && initialized(lta.timestampOracle) && r0.Physical == ms(physNano(lta.timestampOracle)) && r0.Logical == lta.timestampOracle.tsoMux.logical
 //@   modifies nothing
 //@ func (*LocalTSOAllocator).WriteTSO
 //@   props C05
-//@   requires lta != nil && lta.timestampOracle != nil && wfOracle(lta.timestampOracle) && windowInv(lta.timestampOracle) && (lta.leadership == nil || leaseTyped(lta.leadership)) && maxTS != nil
-//@   requires 0 <= maxTS.Physical && maxTS.Physical < 8796093022208 && 0 <= maxTS.Logical && maxTS.Logical < 262144 && (initialized(lta.timestampOracle) ==> physNano(lta.timestampOracle) >= 0 && lta.timestampOracle.tsoMux.logical >= 0)
-//@   ensures [at-or-above-afterwards] result == nil ==> memGE(lta.timestampOracle, maxTS)
-//@   ensures [never-lowered] old(initialized(lta.timestampOracle)) ==> ms(physNano(lta.timestampOracle)) > old(ms(physNano(lta.timestampOracle))) || (ms(physNano(lta.timestampOracle)) == old(ms(physNano(lta.timestampOracle))) && lta.timestampOracle.tsoMux.logical >= old(lta.timestampOracle.tsoMux.logical))
+//@   option modesonly
+//@   at GetCurrentTSO 1 mode strict
+//@   requires @strict lta != nil && lta.timestampOracle != nil && wfOracle(lta.timestampOracle) && windowInv(lta.timestampOracle) && (lta.leadership == nil || leaseTyped(lta.leadership)) && maxTS != nil
+//@   requires @strict 0 <= maxTS.Physical && maxTS.Physical < 8796093022208 && 0 <= maxTS.Logical && maxTS.Logical < 262144 && (initialized(lta.timestampOracle) ==> physNano(lta.timestampOracle) >= 0 && lta.timestampOracle.tsoMux.logical >= 0)
+//@   ensures [at-or-above-afterwards] @strict result == nil ==> memGE(lta.timestampOracle, maxTS)
+//@   ensures [never-lowered] @strict old(initialized(lta.timestampOracle)) ==> ms(physNano(lta.timestampOracle)) > old(ms(physNano(lta.timestampOracle))) || (ms(physNano(lta.timestampOracle)) == old(ms(physNano(lta.timestampOracle))) && lta.timestampOracle.tsoMux.logical >= old(lta.timestampOracle.tsoMux.logical))
 //@   modifies lta.timestampOracle.tsoMux.physical, lta.timestampOracle.tsoMux.logical, lta.timestampOracle.tsoMux.updateTime, lta.timestampOracle.lastSavedTime.v, ghost evres, ghost etcdhas, ghost etcdval, ghost etcdlease, ghost etcdn, ghost etcdhas0, ghost etcdval0, ghost etcdlease0
+
+// Helpers of the SyncMaxTS handler (surroundings: which allocators this member currently leads).
+//@ func (*AllocatorManager).GetHoldingLocalAllocatorLeaders
+//@   assumed
+//@   modifies nothing
+//@ func (*AllocatorManager).GetClusterDCLocationsNumber
+//@   assumed
+//@   modifies nothing
+//@ func (*LocalTSOAllocator).IsAllocatorLeader
+//@   assumed
+//@   modifies nothing
+//@ func (*LocalTSOAllocator).GetDCLocation
+//@   assumed
+//@   modifies nothing
